@@ -3,6 +3,15 @@
 //	c32 rd <vers> <stream>                     T2: the real record reader / handshake reassembly (hook) vs the Lean model
 //	c32 mitm <cfg> <c2s|s2c> <kind> <pos> <val>  T3: a real handshake + data exchange through a transport that corrupts one position
 //	c32 rand <client|server> <style> <seed> <len> T3: an arbitrary byte stream fed to an endpoint
+//	c32 keyed <cfg> <victim> <script>            T3: the peer, holding the keys, sends correctly protected records of any type /
+//	                                              content after a genuine handshake (keyed.go)
+//	c32 dg <suite> <vers> <typ> <plain> <mode> <n> <outer> | ...  T2: the real halfConn.decrypt (hook) on a re-framed
+//	                                              protected record vs the Lean model of its guards (dg.go)
+//	c32 rlen <cfg> <dir> <k> <cut|ins> <typ> <n>  T3: the k-th PROTECTED record re-framed to length n (forge.go)
+//	c32 hsf <cfg> <dir> <k> <mt> <node> <op> <arg> <field>  T3: one field of the k-th plaintext handshake message edited,
+//	                                              every enclosing length re-encoded consistently
+//	c32 alert <cfg> <dir> <k> <level> <desc>     T3: a plaintext alert record inserted in front of record k
+//	c32 frag <cfg> <dir> <n>                     T3: the plaintext handshake stream re-framed into n-byte records
 package c32
 
 import (
@@ -260,6 +269,132 @@ func execRand(f []string) zv.Out {
 	return o
 }
 
+
+func execForge(f []string) zv.Out {
+	if len(f) < 5 {
+		return zv.Out{Go: "bad-op"}
+	}
+	ci, _ := strconv.Atoi(f[2])
+	c := cfgs[ci%len(cfgs)]
+	dir := f[3]
+	at := func(i int) int {
+		if i >= len(f) {
+			return 0
+		}
+		v, _ := strconv.Atoi(f[i])
+		return v
+	}
+	op := &forgeOp{kind: f[1]}
+	tags := []string{"forge:" + f[1], "forge:" + dir, fmt.Sprintf("mitm:cfg=%d", ci), "forge:cipher=" + cipherClass(c)}
+	switch f[1] {
+	case "rlen":
+		if len(f) < 8 {
+			return zv.Out{Go: "bad-op"}
+		}
+		op.k, op.mode, op.typ, op.n = at(4), f[5], at(6), at(7)
+		tags = append(tags, "rlen:"+op.mode, fmt.Sprintf("rlen:typ=%d", op.typ), "rlen:n="+lenBucket(op.n), fmt.Sprintf("rlen:k=%d", op.k))
+	case "hsf":
+		if len(f) < 9 {
+			return zv.Out{Go: "bad-op"}
+		}
+		op.k, op.mt, op.node, op.op, op.arg = at(4), at(5), at(6), f[7], at(8)
+		tags = append(tags, fmt.Sprintf("hsf:msg=%d", op.mt), "hsf:op="+op.op, "hsf:kx="+ctxOf(c).kx)
+		if len(f) > 9 {
+			tags = append(tags, "hsf:field="+f[9])
+		}
+	case "alert":
+		if len(f) < 7 {
+			return zv.Out{Go: "bad-op"}
+		}
+		op.k, op.level, op.desc = at(4), at(5), at(6)
+	case "frag":
+		op.n = at(4)
+		if op.n < 1 {
+			return zv.Out{Go: "bad-op"}
+		}
+	}
+	r, fc, fs := runForge(c, dir, op, 400*time.Millisecond)
+	flt := fc
+	if dir == "s2c" {
+		flt = fs
+	}
+	applied, plain := false, false
+	if flt != nil {
+		flt.mu.Lock()
+		applied, plain = flt.applied, flt.plain
+		flt.mu.Unlock()
+	}
+	o := zv.Out{Tags: append(tags, r.tags...)}
+	if applied || op.kind == "frag" {
+		o.Tags = append(o.Tags, "forge:applied")
+	} else {
+		o.Tags = append(o.Tags, "forge:not-applied")
+		o.Trivial = true
+	}
+	if r.hsOK {
+		o.Tags = append(o.Tags, "forge:hs-completed")
+	} else {
+		o.Tags = append(o.Tags, "forge:hs-failed")
+	}
+	stalled := false
+	for _, t := range r.tags {
+		if strings.Contains(t, "stalled") {
+			stalled = true
+		}
+	}
+	// legal streams must still be accepted: pure re-framing; a warning alert in the clear before TLS 1.3
+	legal := op.kind == "frag" || (op.kind == "alert" && applied && plain && op.level == 1 && op.desc != 0 && c.ver != tls.VersionTLS13)
+	if legal {
+		o.Tags = append(o.Tags, "forge:legal")
+		if !(r.hsOK && r.dataOK) && !stalled {
+			r.viol = append(r.viol, "a stream that stayed legal (handshake records re-framed / one warning alert inserted in the clear) was refused")
+		}
+	}
+	if len(r.viol) > 0 {
+		o.Viol = strings.Join(r.viol, "; ")
+	}
+	return o
+}
+
+func lenBucket(n int) string {
+	switch {
+	case n <= 20:
+		return strconv.Itoa(n)
+	case n <= 100:
+		return "21-100"
+	case n <= 16384:
+		return "101-16384"
+	}
+	return ">16384"
+}
+
+// cipherClass names the record protection a configuration negotiates (what halfConn.decrypt branches on).
+func cipherClass(c cfgSpec) string {
+	if c.ver == tls.VersionTLS13 {
+		return "tls13-aead"
+	}
+	v := map[uint16]string{tls.VersionTLS10: "tls10", tls.VersionTLS11: "tls11", tls.VersionTLS12: "tls12"}[c.ver]
+	switch c.suite {
+	case 0x0005, 0xc011, 0xc007:
+		return v + "-rc4-sha1"
+	case 0x000a, 0x0016, 0xc012:
+		if c.ver == tls.VersionTLS10 {
+			return "tls10-3des-implicit-iv"
+		}
+		return v + "-3des-explicit-iv"
+	case 0x002f, 0x0033, 0x0035, 0x0039, 0xc013, 0xc014, 0xc009, 0xc00a:
+		if c.ver == tls.VersionTLS10 {
+			return "tls10-aes-cbc-sha1-implicit-iv"
+		}
+		return v + "-aes-cbc-sha1-explicit-iv"
+	case 0x003c, 0x003d, 0x0067, 0x006b, 0xc027, 0xc023:
+		return v + "-aes-cbc-sha256-explicit-iv"
+	case 0xcca8, 0xcca9, 0xccaa:
+		return "tls12-chacha20"
+	}
+	return "tls12-aes-gcm"
+}
+
 func exec(line string) zv.Out {
 	f := strings.Fields(line)
 	if len(f) < 4 {
@@ -272,6 +407,12 @@ func exec(line string) zv.Out {
 		return execMITM(f)
 	case "rand":
 		return execRand(f)
+	case "rlen", "hsf", "alert", "frag":
+		return execForge(f)
+	case "dg":
+		return execDg(line, f)
+	case "keyed":
+		return execKeyed(f)
 	}
 	return zv.Out{Go: "bad-op"}
 }
@@ -425,6 +566,89 @@ func genRd(g *zv.Gen) {
 	}
 }
 
+// genRdFraming: the framing space swept systematically (T2, reader without a cipher). Every record type with every
+// length 0..20 (a zero-length record is legal framing: what readRecordOrCCS does with it depends on the type and on
+// the reassembly state), in three reader states (fresh, a handshake message half buffered, right after a complete
+// message), with several contents, followed by a genuine record; and every alert level / description.
+func genRdFraming(g *zv.Gen) {
+	rec := func(s []byte, typ byte, v int, body []byte) []byte {
+		s = append(s, typ, byte(v>>8), byte(v), byte(len(body)>>8), byte(len(body)))
+		return append(s, body...)
+	}
+	for _, vers := range []int{0, 0x0301, 0x0302, 0x0303, 0x0304} {
+		rv := vers
+		if rv == 0 || rv == 0x0304 {
+			rv = 0x0303
+		}
+		for _, typ := range []byte{20, 21, 22, 23, 24, 19, 0, 0x80, 0xff} {
+			for n := 0; n <= 20; n++ {
+				var bodies [][]byte
+				bodies = append(bodies, make([]byte, n))
+				b1 := make([]byte, n) // a plausible start for the type: CCS {1}, warning alert {1, 0x5a}, a simple message
+				switch typ {
+				case 20:
+					if n >= 1 {
+						b1[0] = 1
+					}
+				case 21:
+					if n >= 1 {
+						b1[0] = 1
+					}
+					if n >= 2 {
+						b1[1] = 0x5a
+					}
+				default:
+					if n >= 1 {
+						b1[0] = 12
+					}
+					if n >= 4 {
+						b1[3] = byte(n - 4)
+					}
+				}
+				bodies = append(bodies, b1)
+				if n >= 2 {
+					b2 := append([]byte(nil), b1...)
+					b2[0], b2[1] = 2, 40 // fatal alert / an over-long message header
+					bodies = append(bodies, b2)
+				}
+				for _, body := range bodies {
+					for state := 0; state < 3; state++ {
+						var s []byte
+						switch state {
+						case 1:
+							s = rec(s, 22, rv, []byte{12, 0}) // half a message header buffered
+						case 2:
+							s = rec(s, 22, rv, []byte{14, 0, 0, 0})
+						}
+						s = rec(s, typ, rv, body)
+						s = rec(s, 22, rv, []byte{0, 0, 0, 0, 14, 0, 0, 0}[state*2:])
+						g.Emitf("c32 rd %d %s", vers, zv.Hex(s))
+					}
+				}
+			}
+		}
+		// alerts: every level with three descriptions, every description at warning and fatal level; then a message
+		for a := 0; a < 256; a++ {
+			for _, p := range [][2]int{{a, 0}, {a, 1}, {a, 90}, {1, a}, {2, a}} {
+				s := rec(nil, 21, rv, []byte{byte(p[0]), byte(p[1])})
+				s = rec(s, 22, rv, []byte{14, 0, 0, 0})
+				g.Emitf("c32 rd %d %s", vers, zv.Hex(s))
+			}
+		}
+		// runs of zero-length records of each type around maxUselessRecords
+		for _, typ := range []byte{20, 21, 22, 23} {
+			for _, k := range []int{1, 15, 16, 17, 18} {
+				var s []byte
+				for i := 0; i < k; i++ {
+					s = rec(s, typ, rv, nil)
+				}
+				s = rec(s, 22, rv, []byte{14, 0, 0, 0})
+				g.Emitf("c32 rd %d %s", vers, zv.Hex(s))
+			}
+		}
+	}
+}
+
 // structural positions of a genuine stream: the first bytes (type, length, leading length fields) of every plaintext
 // handshake message
 func structural(stream []byte) (out []int, body8 []int) {
@@ -519,7 +743,11 @@ func genMITM(g *zv.Gen) {
 func gen(g *zv.Gen) {
 	tlsrig.GetPKI()
 	genRd(g)
+	genRdFraming(g)
+	genDg(g)
 	genMITM(g)
+	genForge(g)
+	genKeyed(g)
 	n := g.N(600, 20000)
 	for i := 0; i < n; i++ {
 		role := []string{"client", "server"}[i%2]
@@ -530,5 +758,5 @@ func gen(g *zv.Gen) {
 
 func init() {
 	zv.Register(&zv.Prop{ID: "C32", Topic: "c32", Gen: gen, Exec: exec, Timeout: 40 * time.Second,
-		Rule: "rd: generated record streams (handshake bytes of simple messages cut into records, interleaved warning alerts / CCS / empty / wrong-type / wrong-version / oversized records, runs around maxUselessRecords, lengths around maxHandshake, truncation and byte damage) through the real reader (hook) vs the Lean model and a reference framer; mitm: real zcrypto client/server handshakes + data exchange (16 configurations: TLS 1.0-1.3, RSA/ECDHE/DHE suites, key types, tickets, client auth) through a transport that flips a bit / truncates and closes / inserts a byte / re-chunks / re-frames at one position (sampled positions in quick, every position in thorough), either direction; rand: random / record-shaped / handshake-shaped byte streams fed to a client and to a server; a case is one distinct line"})
+		Rule: "rd: generated record streams (handshake bytes of simple messages cut into records, interleaved warning alerts / CCS / empty / wrong-type / wrong-version / oversized records, runs around maxUselessRecords, lengths around maxHandshake, truncation and byte damage; plus a systematic framing sweep: every record type x every length 0..20 x three reassembly states x several contents, every alert level / description, runs of zero-length records of each type) through the real reader (hook) vs the Lean model and a reference framer; dg: the real encrypt (hook, fixed keys) produces a protected record for every record-protection class (none, RC4, 3DES / AES CBC with implicit and explicit IV and both MAC sizes, AES-GCM, ChaCha20, the three TLS 1.3 suites), the record is re-framed to EVERY length 0..genuine+20 (and outer types), and the real halfConn.decrypt is compared with the Lean model of its guards; mitm: real zcrypto client/server handshakes + data exchange (30 configurations: TLS 1.0-1.3, RSA / ECDHE / finite-field DHE key exchange, every record-protection class, key types, tickets, client auth) through a transport that flips a bit / truncates and closes / inserts a byte / re-chunks / re-frames at one position (sampled positions in quick, every position in thorough), either direction; rlen: once protection is active every protected record of the exchange re-framed to every length 0..20 and around every block / MAC / IV / nonce / tag boundary (header consistent with the bytes that follow), as replacement or as inserted record, with every content type; hsf: every plaintext handshake message parsed into its field tree and re-encoded with consistent lengths after ONE field was emptied / shortened / cut to one byte / lengthened / dropped / doubled / filled with 00 or ff / given a length prefix that lies by one, the body cut to every short length, the message type set to every value, every one-byte enum field (hash id, signature id, curve type, point format, compression, certificate type, status type, name type, ...) set to every value 0..255 (once per field and key exchange in quick, everywhere in thorough), two-byte code points set to boundary values; alert: a plaintext alert of every level / description inserted in front of every record; frag: the handshake stream re-framed into records of 1..20, 31..33, 63..65, 255..257, 1024 bytes; keyed: the peer itself, holding the keys, sends correctly protected records after a genuine handshake: alerts of every level / description, every content type, records of every small length, runs of ignorable records around maxUselessRecords, post-handshake handshake messages of every type, KeyUpdate with every request value, NewSessionTicket with edited fields, messages split over records; rand: random / record-shaped / handshake-shaped byte streams fed to a client and to a server; a case is one distinct line"})
 }
